@@ -762,6 +762,7 @@ def run(ctx):
     sub = _Ctx(ctx.pid, ctx.tier)
     c19.check_guards(sub, fb)
     c19.check_intdiv(sub, fb)
+    c19.check_ring_ops(sub, fb)
     c19.check_compare(sub, fb)
     c19.check_sinks(sub, fb)
     for r in sub.results:
